@@ -22,6 +22,9 @@ Applies(k, f, g) ==
                 "obj_nonscalar", "get_unsolved", "varget_unsolved", "st_not_a_constraint"} -> TRUE
       [] k \in {"get_after_fail", "varget_after_fail"} -> TRUE
       [] k \in {"forall_foreign_set", "st_foreign_robust"} -> f \in RobustFronts /\ g \in RobustFronts
+      \* piecewise constraints (maxof / minof, E(maxof)) made from the bystander's variables: a separate branch of every st()
+      [] k \in {"st_foreign_maxof", "st_foreign_minof"} -> f \in RobustFronts /\ g \in RobustFronts
+      [] k = "st_foreign_Emaxof" -> f = "dro" /\ g = "dro"
       [] k = "ambiguity_after_constraints" -> f = "dro"
       \* the worst-case objective setters of the robust front ends (minmax / maxmin, minsup / maxinf), both directions
       [] k \in {"robobj_redefine_lo", "robobj_redefine_hi", "robobj_nonscalar_lo", "robobj_nonscalar_hi"} -> f \in RobustFronts
